@@ -752,10 +752,23 @@ func (c *Contract) addClause(kw, rest string) error {
 		}
 		for _, part := range splitTop(rest) {
 			part = strings.TrimSpace(part)
+			// `loc if cond`: the location may be written only when cond (over the entry state) holds
+			var cond Expr
+			if i := strings.Index(part, " if "); i > 0 {
+				ce, err := ParseExpr(strings.TrimSpace(part[i+4:]))
+				if err != nil {
+					return err
+				}
+				cond = ce
+				part = strings.TrimSpace(part[:i])
+			}
 			part = strings.ReplaceAll(part, "[*]", "[0:]")
 			e, err := ParseExpr(part)
 			if err != nil {
 				return err
+			}
+			if cond != nil {
+				e = &ECondLoc{Loc: e, Cond: cond}
 			}
 			c.Modifies = append(c.Modifies, e)
 		}
@@ -1101,3 +1114,11 @@ func walkExpr(e Expr, f func(Expr)) {
 		walkExpr(x.X, f)
 	}
 }
+
+// ECondLoc: a modifies location guarded by a condition (`modifies x[*] if c`).
+type ECondLoc struct {
+	Loc  Expr
+	Cond Expr
+}
+
+func (e *ECondLoc) exprString() string { return e.Loc.exprString() + " if " + e.Cond.exprString() }
